@@ -380,10 +380,15 @@ impl<F: Field> Polynomial<F, LagrangeCoeff> {
     /// Rotates the values in a `LagrangeCoeff` polynomial by `Rotation`
     pub fn rotate(&self, rotation: Rotation) -> Polynomial<F, LagrangeCoeff> {
         let mut values = self.values.clone();
-        if rotation.0 < 0 {
-            values.rotate_right((-rotation.0) as usize);
-        } else {
-            values.rotate_left(rotation.0 as usize);
+        // Rotations act modulo the number of rows (`rotate_left`/`rotate_right`
+        // panic when the amount exceeds the length).
+        let len = values.len();
+        if len != 0 {
+            if rotation.0 < 0 {
+                values.rotate_right(rotation.0.unsigned_abs() as usize % len);
+            } else {
+                values.rotate_left(rotation.0 as usize % len);
+            }
         }
         Polynomial {
             values,
